@@ -1,6 +1,8 @@
 import NomtModel.Store.StageGlueUpdate
 import NomtModel.Store.LeafUpdKV
 import NomtModel.Store.BranchUpdExamples
+import NomtModel.Store.StageGlueFilterMulti
+import NomtModel.Store.ExtRangeToy
 /-!
 # C01 — the whole beatree update (`ops::update`: leaf stage → branch stage) is the sequential model
 
@@ -76,6 +78,52 @@ theorem T1_filter_changeset_spec {α : Type} (leaf : Bool) (l : List (Nat × Opt
       (∀ c ∈ mergePairs (ExtRange.sortCs l), ∃ c' ∈ ExtRange.sortCs l, c'.1 = c.1) ∧
       (l.Pairwise (fun a b => a.1 < b.1) → ExtRange.filterCs leaf l = some l) :=
   ⟨filterCs_spec leaf l hne h, (mergePairs_asc _ h).1, (mergePairs_asc _ h).2, fun ha => filterCs_of_asc leaf l hne ha⟩
+
+/-- **T1.filter_disjoint_workers** — several workers.  If every worker's list is in key order (its tracker is a `BTreeMap`) and
+NO separator is held by two workers' trackers, then for the concatenation of the lists in ANY order of completion:
+`filter_*_changeset` reaches neither of its `assert!`s (nor `len() - 1` on a non-empty list), removes nothing, and returns
+the strictly ascending sort of all entries — the duplicate branch is dead and `PairInv` holds trivially.  The premise is an
+invariant of the extend-range protocol that is NOT proved here for every schedule (an `ExtendRangeResponse` MOVES entries
+out of the responder's tracker, `T19_answer_conserves_entries`; ranges are adjacent, `T16_ranges_adjacent_every_schedule`;
+what is missing: "every key of a worker's tracker lies inside its current range", which needs the updaters' lower
+bounds on the separators they emit); it is kernel-checked on the toy instances below and was measured on the real code
+(1 439 multi-worker stage runs, 10 670 tracker keys: no key in two trackers). -/
+theorem T1_filter_disjoint_workers {α : Type} (leaf : Bool) (parts : List (List (Nat × Option α)))
+    (hasc : ∀ p ∈ parts, p.Pairwise (fun a b => a.1 < b.1))
+    (hdis : parts.Pairwise (fun p q => ∀ a ∈ p, ∀ b ∈ q, a.1 ≠ b.1)) (hne : leaf = true ∨ parts.flatten ≠ []) :
+    ExtRange.filterCs leaf parts.flatten = some (ExtRange.sortCs parts.flatten) ∧
+      (ExtRange.sortCs parts.flatten).Pairwise (fun a b => a.1 < b.1) ∧
+      (ExtRange.sortCs parts.flatten).Perm parts.flatten :=
+  filterCs_of_nodup leaf _ hne (keys_nodup_of_disjoint parts hasc hdis)
+
+/-- the separators of the entries every worker hands to `apply_*_changes` when all workers have returned, worker by worker -/
+def finalKeys {σ N C : Type} (g : ExtRange.G σ N C) : List (List Nat) :=
+  (List.range g.n).map fun i => (ExtRange.workerChanges (g.ws i)).1.map (·.1)
+
+/-- the toy stage with two workers under the schedule `s` followed by round robin: the workers' final separators -/
+def toyFinalKeys (nodes : List (List Nat)) (cs : List (Nat × Bool)) (s : List Nat) : Option (List (List Nat)) :=
+  let db := ExtRange.Toy.mkDb nodes
+  let wps := ExtRange.prepareWorkers (ExtRange.Toy.look db) (cs.map (·.1)) 2
+  let g0 := ExtRange.initG ExtRange.Toy.upd {} db cs wps
+  match ExtRange.runSched ExtRange.Toy.upd {} db s g0 with
+  | .inl _ => none
+  | .inr g1 =>
+    match ExtRange.runPolicy ExtRange.Toy.upd {} db (List.range g1.n) 1 400 g1 with
+    | some (.inr g) => some (finalKeys g)
+    | _ => none
+
+/-- **T1.workers_trackers_disjoint_partial** (kernel-checked, Q30's toy updater) — on the instance "under-full last node +
+emptied first node of the right worker + granted unchanged range + second merge" under ALL 128 schedules whose first 21 steps
+are 7 freely chosen bursts of either worker: when the workers have returned no separator is held by both, although entries
+did travel from the right worker to the left one (the left worker ends with the separators 30, 33, 40 of the right worker's
+initial range; every schedule ends with the same two lists) — the premise of `T1_filter_disjoint_workers`. -/
+theorem T1_workers_trackers_disjoint_partial :
+    (ExtRange.Toy.allPicks 7).all (fun s =>
+      match toyFinalKeys ExtRange.Toy.lvlA ExtRange.Toy.csA (s.flatMap fun i => [i, i, i]) with
+      | some ks => decide (ks.flatten.Nodup) && decide (ks.length = 2)
+      | none => false) = true ∧
+    toyFinalKeys ExtRange.Toy.lvlA ExtRange.Toy.csA [] = some [[10, 20, 30, 33, 40], [50]] := by
+  constructor <;> decide +kernel
 
 /-- **T1.filter_three_equal_keys_example** (kernel-checked; the question of `notes/Q30.md` (e) 5) — outside the producer
 invariant: three entries under one separator `(Some a, None, Some b)` pass both `assert!`s, index 1 is collected twice, and
